@@ -45,6 +45,25 @@ def opt_n(x):
     return "None" if x is None else "(Some %s)" % ct.n(x)
 
 
+def tenths(x):
+    """seconds -> tenths of a second (Coq nat); None stays None"""
+    return None if x is None else int(round(float(x) * 10))
+
+
+def expected_texts(case):
+    """what each stream's reads spell, before its EOF"""
+    res = {}
+    for who in ("out", "err"):
+        bs = []
+        for ev in case["events"]:
+            if ev[0] == who:
+                if not ev[1]:
+                    break
+                bs.extend(ev[1])
+        res[who] = bytes(bs).decode("utf-8")
+    return res
+
+
 def effective_timeout(case):
     return case["timeout"] if "timeout" in case else case.get("config_timeout")
 
@@ -55,7 +74,14 @@ def run_impl(case):
     tm = o["timer"]
     names = {"handle_stdout": "out", "handle_stdin": "in", "handle_stderr": "err"}
     res = o["stdout"] is not None
+    want = expected_texts(case)
+    text_ok = True
+    if res:
+        # captured text = the first reads of the stream, in order (how many: compared with the model)
+        text_ok = want["out"].startswith(o["stdout"]) and \
+            (o["stderr"] == "" if case["pty"] else want["err"].startswith(o["stderr"]))
     return {
+        "text_ok": text_ok, "stdout": o["stdout"], "stderr": o["stderr"],
         "hang": hang, "hang_what": o.get("hang_what"),
         "outcome": None if hang else o["outcome"],
         "kills": o["kills"], "kills_after_exit": o["kills_after_exit"],
@@ -63,7 +89,7 @@ def run_impl(case):
         "stop": o["stop_calls"], "flag": o["program_finished"],
         "alive": [w for w in ("out", "in", "err") if w in [names[a] for a in o["alive_after"]]],
         "timer_armed": bool(tm and tm["armed_after"]), "timer_fired": bool(tm and tm["fired"]),
-        "interval": tm["interval"] if tm else None,
+        "interval": tenths(tm["interval"]) if tm else None,
         "reaped": o["exit_observed"],
         "nout": len(o["stdout"]) if res else 0, "nerr": len(o["stderr"]) if res else 0,
         "joins": o.get("joins"), "thread_excs": o.get("thread_excs"), "elapsed": round(o["elapsed"], 3),
@@ -77,11 +103,11 @@ def to_coq(case, obs):
         ct.b(obs["flag"]), ct.lst([WHO[w] for w in obs["alive"]]), ct.b(obs["timer_armed"]),
         ct.b(obs["timer_fired"]), ct.b(obs["reaped"]), ct.n(obs["nout"]), ct.n(obs["nerr"]))
     ne = case.get("never_eof", [])
-    return "(mk %s %s %s %s %s %s %s %s %s %s %s %s)" % (
+    return "(mk %s %s %s %s %s %s %s %s %s %s %s %s %s)" % (
         ct.b(case["pty"]), ct.b(bool(case.get("in"))), ct.b(case["warn"]), ct.b(case["async"]),
         ct.b(bool(case.get("start_error"))), ct.b("out" in ne), ct.b("err" in ne),
-        opt_n(case.get("timeout")), opt_n(case.get("config_timeout")),
-        ct.lst([ev_coq(e) for e in case["events"]]), o, opt_n(obs["interval"]))
+        opt_n(tenths(case.get("timeout"))), opt_n(tenths(case.get("config_timeout"))),
+        ct.lst([ev_coq(e) for e in case["events"]]), o, opt_n(obs["interval"]), ct.b(obs.get("text_ok", True)))
 
 
 # ---------------------------------------------------------------------------
@@ -140,9 +166,9 @@ def gen_case(rng, focus=None):
     r = rng.random()
     if focus == "timeout":
         if r < 0.55:
-            case["timeout"] = rng.choice([1, 5])
+            case["timeout"] = rng.choice([1, 5, 0.9, 2.9])
         if rng.random() < 0.4:
-            case["config_timeout"] = rng.choice([2, 7])
+            case["config_timeout"] = rng.choice([2, 7, 0.5])
     else:
         if r < 0.3:
             case["timeout"] = rng.choice([1, 5])
@@ -151,11 +177,14 @@ def gen_case(rng, focus=None):
     if not pty and rng.random() < 0.04:
         case["start_error"] = "FileNotFoundError"
     evs = []
-    for _ in range(rng.choice([0, 0, 1, 1, 2, 3])):
-        evs.append(["out", [65]])
-    for _ in range(rng.choice([0, 0, 1, 2])):
-        evs.append(["err", [66]])
+    for i in range(rng.choice([0, 0, 1, 1, 2, 3])):
+        evs.append(["out", [65 + i]])            # A B C: every read carries its own byte
+    for i in range(rng.choice([0, 0, 1, 2])):
+        evs.append(["err", [97 + i]])            # a b
+    oi = iter(sorted(e[1][0] for e in evs if e[0] == "out"))
+    ei = iter(sorted(e[1][0] for e in evs if e[0] == "err"))
     rng.shuffle(evs)
+    evs = [[e[0], [next(oi) if e[0] == "out" else next(ei)]] for e in evs]   # in stream order after the shuffle
     if rng.random() < 0.7:
         evs.insert(rng.randrange(len(evs) + 1), ["out", []])
     if rng.random() < 0.7:
@@ -250,7 +279,7 @@ def small_cases(tier):
                 ws = ["out"] + ([] if pty else ["err"])
                 yield {"events": [[kind, who]], "pty": pty, "in": {"mode": "text"}, "warn": False,
                        "async": False, "start_error": None, "never_eof": ws}
-                yield {"events": [["out", [65]], [kind, who], ["out", [65]]], "pty": pty, "in": None,
+                yield {"events": [["out", [65]], [kind, who], ["out", [66]]], "pty": pty, "in": None,
                        "warn": True, "async": True, "start_error": None, "never_eof": ws}
                 for hold in ws:
                     yield {"events": [[kind, who], ["exit", 0]], "pty": pty, "in": {"mode": "text"},
